@@ -55,7 +55,13 @@ def train(passwords=None, dest=None, encoding='utf-8', ngram=4, alphabet_size=10
     class TFI(orig['TrainerFileInput']):
         def __init__(self, *a, **kw):
             super().__init__(*a, **kw)
+            self.verif_yielded = []          # what this pass of run_trainer really saw
             inputs.append(self)
+
+        def read_password(self):
+            for pw in super().read_password():
+                self.verif_yielded.append(pw)
+                yield pw
 
     # the segmentation itself: the final section list of every parsed password (C06's tallies are tallies of these)
     import lib_trainer.pcfg_password_parser as ppm
